@@ -76,6 +76,45 @@ func (b *Box[T]) Count(k int) int {
 	return b.N + k + 500
 }
 
+// Wide has more integer argument words than the ABI has registers (receiver 1 + strings 4 +
+// slices 6 + 2): the instantiation wrapper copies stack arguments before it calls the shape function.
+//
+//go:noinline
+func (b *Box[T]) Wide(ctx, key string, s1, s2 []int, n int, f bool) int {
+	if n > 1<<43 {
+		return n*7 - b.N
+	}
+	return b.N + n + len(ctx) + len(key) + len(s1) + len(s2) + 600
+}
+
+// Arr is a generic type whose value receiver cannot travel in registers (array field).
+type Arr[T any] struct {
+	A [6]int
+	V T
+}
+
+// Sum has a value receiver.
+//
+//go:noinline
+func (a Arr[T]) Sum(k int) int {
+	if k > 1<<44 {
+		return k*9 - a.A[0]
+	}
+	return a.A[0] + a.A[5] + k + 700
+}
+
+//go:noinline
+func WideInt(b *Box[int], n int) int { return b.Wide("c", "key", []int{1}, []int{1, 2}, n, true) }
+
+//go:noinline
+func WideString(b *Box[string], n int) int { return b.Wide("c", "key", []int{1}, []int{1, 2}, n, true) }
+
+//go:noinline
+func SumInt(a Arr[int], k int) int { return a.Sum(k) }
+
+//go:noinline
+func SumString(a Arr[string], k int) int { return a.Sum(k) }
+
 // Direct calls on instances of different instantiations.
 //
 //go:noinline
